@@ -75,7 +75,15 @@ func exploreJob(j Job, r *JobResult, s Sys, conf func(e *Explorer)) {
 		conf(e)
 	}
 	if j.Replay != nil {
-		r.Found = e.ReplayOne(j.Replay.Path, j.Replay.Last)
+		// the only nondeterminism the library has is Go map iteration order: a violation that
+		// depends on it reproduces with some probability, so a replay repeats the trace
+		tries := j.p("replaytries", 64)
+		for t := 1; t <= tries && r.Found == nil; t++ {
+			r.Found = e.ReplayOne(j.Replay.Path, j.Replay.Last)
+			if r.Found != nil {
+				r.Notes = append(r.Notes, fmt.Sprintf("reproduced at attempt %d of at most %d", t, tries))
+			}
+		}
 	} else {
 		r.Found = e.Run()
 	}
